@@ -26,9 +26,9 @@ TECH = {
  'C11': 'end-to-end origin chain of the chunk size through six links by seeded origin propagation',
  'C12': 'origin propagation on loop-free bodies, one obligation per API method (structural induction)',
  'C13': 'inventory of ownership primitives (who-may-call); post-dominance pairing of ptr::read with set_len(0); consumer check of into_inner',
- 'C14': 'drop-flag-aware reachability of Drop terminators from the runner call\'s unwind edge; callee resolution inside the double-drop window; who-may-call for panic APIs',
- 'C15': 'panic-site obligations (Assert terminators, expect/assert calls) of the configuration slice discharged by guards, constructor invariants and arithmetic lemmas over origin terms',
- 'C16': 'call-graph reachability (class-hierarchy resolution, closure-invocation summaries) from transformations to sinks',
+ 'C14': 'drop-flag-aware reachability of Drop terminators from the runner call\'s unwind edge; callee resolution inside the double-drop window; who-may-call for panic APIs; loop-exit dependence analysis (no loop whose every exit depends on state only other threads advance; no blocking primitive)',
+ 'C15': 'panic-site obligations (Assert terminators, expect/assert calls) of the configuration slice discharged by guards, constructor invariants and arithmetic lemmas over origin terms; interprocedural upper-bound analysis of every size handed to an allocating API',
+ 'C16': 'call-graph reachability (class-hierarchy resolution, closure-invocation summaries) from transformations, setters and source constructors to sinks; mutable-borrow dataflow of received values at construction time',
 }
 PENDING = {
 }
